@@ -80,6 +80,7 @@ struct vm_state
     struct { uint8_t dev, call; int16_t arg; } log[VM_MAXCALLS];
     int nlog;
     int monitor;   // protocol monitor on (violations -> vs_fail)
+    int strict_sequential; // single-threaded use (E3): a frame call after stop is a protocol violation too
     int packet_checks; // C05 checks in append on
     const char* prop; // property id used in monitor clauses
 };
